@@ -16618,6 +16618,14 @@ impl<SP: SignerProvider> Writeable for FundedChannel<SP> {
 					3u8.write(writer)?;
 					#[cfg(test)]
 					inbound_committed_update_adds.push(_update_add);
+					// Verification switch (H12): lets the external harness write what test builds write, so
+					// that the reconstruct-from-monitors reload path can be exercised. Off by default.
+					#[cfg(all(not(test), feature = "verif_hooks"))]
+					if crate::ln::verif_hooks::WRITE_INBOUND_COMMITTED_UPDATE_ADDS
+						.load(core::sync::atomic::Ordering::Relaxed)
+					{
+						inbound_committed_update_adds.push(_update_add);
+					}
 				},
 				&InboundHTLCState::LocalRemoved(ref removal_reason) => {
 					4u8.write(writer)?;
